@@ -75,7 +75,21 @@ func (r *result) doCause(ctx context.Context, wg *sync.WaitGroup) {
 		r.forgeRec = -2 // resolved from the log snapshot (record with the note "forged:...")
 		w.Router.Inject(simDir(dirTo(c.By)), from, to, data, "forged:"+name)
 	case "idle":
-		// nothing to do: the network is blacked out from tCause on, or the connection is simply left alone
+		// nothing to do: the network is blacked out from tCause on, or the connection is simply left alone.
+		// A sender of datagrams fills the send queue (32 entries) and then blocks in SendDatagram.
+		for _, x := range []*endpoint{r.C, r.S} {
+			if has(x.side.Blocked, "senddgram") {
+				conn := x.conn
+				r.call(wg, x, "senddgram", func() (int, error) {
+					for i := 0; i < 100000; i++ {
+						if err := conn.SendDatagram(make([]byte, 100)); err != nil {
+							return i, err
+						}
+					}
+					return 0, nil
+				})
+			}
+		}
 	}
 }
 
